@@ -58,6 +58,10 @@ def rand_case(rng, memos=MEMOS, maxN=40):
         c["pred"] = "steps:%d" % rng.randint(1, 5)
     else:
         c["T"] = rng.randint(2, 7)
+    if rng.random() < 0.2:
+        c["clobber"] = 1            # a pure rule may still scribble on the array it was handed
+    if rng.random() < 0.25:
+        c["layout"] = rng.choice(["F", "rev", "str"])
     return c
 
 
